@@ -9,6 +9,8 @@ import time
 
 import z3
 
+from vt.sqlsmt.sym import simp as _simp
+
 from vt import boot
 
 boot.boot()
@@ -52,7 +54,10 @@ class Case:
         self.ctx = ctx = Ctx()
         used = set()
         for name, sql, _ in self.pipe.queries:
-            used |= {t.name for t in sqleval.parse(sql).find_all(sqleval.exp.Table)}
+            try:
+                used |= {t.name for t in sqleval.parse(sql).find_all(sqleval.exp.Table)}
+            except Exception:  # not parseable: fall back to a textual scan
+                used |= {s_["name"] for s_ in self.structs if '"%s"' % s_["name"] in sql}
         self.inputs = {}
         for s in self.structs:
             if s["name"] not in used and not self.opts.get("all_inputs"):
@@ -61,6 +66,10 @@ class Case:
             n = self.nrows[s["name"]] if isinstance(self.nrows, dict) else self.nrows
             self.inputs[s["name"]] = make_input(ctx, s["name"], comps, n, int_bound=self.opts.get("int_bound", 2 ** 20),
                                                 str_maxlen=self.opts.get("str_maxlen", 2))
+        return self
+
+    def encode(self):
+        ctx = self.ctx
         mac, self.macros_skipped = macros()
         self.ev = self.evaluator_cls(ctx, self.inputs, mac)
         self.results = {}
@@ -69,6 +78,31 @@ class Case:
             self.ev.tables[name] = t
             self.results[name] = t
         return self
+
+    def probe_real(self, seed=0, tries=3):
+        """Run the real run() on random valid concrete inputs (used when the emitted SQL cannot be encoded):
+        -> None, or dict describing a raw (non-VTL) failure."""
+        import pandas as pd
+        from vtlengine.Exceptions import VTLEngineException
+        rng = random.Random(seed)
+        for k in range(tries):
+            asg, subs = self.random_assignment(rng)
+            cin = self.concrete_inputs(lambda t, asg=asg: asg[t] if t in asg else _pyval(_simp(z3.substitute(t, *subs))))
+            dfs = {}
+            for name, t in self.inputs.items():
+                cols = {}
+                for cn, ty, role, nl in t.comps:
+                    vals = [float(d[cn]) if isinstance(d[cn], fractions.Fraction) else d[cn] for d in cin[name]]
+                    cols[cn] = pd.Series(vals, dtype=object)
+                dfs[name] = pd.DataFrame(cols)
+            try:
+                R.run_ast(self.ast, self.struct_dict, dfs, **({"scalar_values": self.scalar_values} if self.scalar_values else {}))
+            except VTLEngineException:
+                continue
+            except Exception as e:  # raw engine error
+                return dict(inputs=_jsonable(cin), observed="raw %s: %s" % (type(e).__name__, str(e)[:300]), raw_error=True,
+                            what="run() raised a raw (non-VTL) error", status="reproduced")
+        return None
 
     # ------------------------------------------------------------------ concrete self-check
     def random_assignment(self, rng):
@@ -88,7 +122,7 @@ class Case:
                             asg[sv.null] = rng.random() < 0.3
                         asg[sv.val] = self._rand_val(rng, sv.kind, role)
             subs = [(k, _z3val(k, v)) for k, v in asg.items()]
-            ok = z3.simplify(z3.substitute(z3.And(*self.ctx.assume), *subs)) if self.ctx.assume else z3.BoolVal(True)
+            ok = _simp(z3.substitute(z3.And(*self.ctx.assume), *subs)) if self.ctx.assume else z3.BoolVal(True)
             if z3.is_true(ok):
                 return asg, subs
             if not z3.is_false(ok):
@@ -134,7 +168,7 @@ class Case:
         """Execute the emitted SQL chain on real DuckDB with the real macro library. -> {name: (cols, rows)} or ('error', msg)"""
         import duckdb
         from vtlengine.duckdb_transpiler.sql import initialize_time_types
-        conn = duckdb.connect()
+        conn = duckdb.connect(config={"threads": 1})
         try:
             initialize_time_types(conn)
             for name, t in self.inputs.items():
@@ -172,10 +206,10 @@ class Case:
             asg, subs = self.random_assignment(rng)
 
             def value_of(term, asg=asg):
-                return asg[term] if term in asg else _pyval(z3.simplify(z3.substitute(term, *subs)))
+                return asg[term] if term in asg else _pyval(_simp(z3.substitute(term, *subs)))
             cin = self.concrete_inputs(value_of)
             real = self.duckdb_run(cin)
-            err = z3.simplify(z3.substitute(self.ctx.error_flag(lambda t: not t.startswith("nonfinite")), *subs))
+            err = _simp(z3.substitute(self.ctx.error_flag(lambda t: not t.startswith("nonfinite")), *subs))
             sym_err = z3.is_true(err)
             real_err = any(isinstance(v, tuple) and v[0] == "error" for v in real.values())
             if sym_err != real_err:
@@ -192,7 +226,7 @@ class Case:
                 srows = []
                 skip_cols = set()
                 for r in t.rows:
-                    p = z3.simplify(z3.substitute(r.present, *subs))
+                    p = _simp(z3.substitute(r.present, *subs))
                     if not (z3.is_true(p) or z3.is_false(p)):
                         p = self._solve_val(r.present, subs)
                     if not _truth(p):
@@ -217,7 +251,7 @@ class Case:
         if sv.kind == "struct":
             skip_cols.add(c)
             return None
-        nl = z3.simplify(z3.substitute(sv.null, *subs))
+        nl = _simp(z3.substitute(sv.null, *subs))
         if not (z3.is_true(nl) or z3.is_false(nl)):
             if _has_uf(nl):
                 skip_cols.add(c)
@@ -225,7 +259,7 @@ class Case:
             nl = self._solve_val(sv.null, subs)
         if _truth(nl):
             return None
-        v = z3.simplify(z3.substitute(sv.val, *subs))
+        v = _simp(z3.substitute(sv.val, *subs))
         if not _is_value(v):
             if _has_uf(v):
                 skip_cols.add(c)
